@@ -189,7 +189,9 @@ func primaryPayloadTypeForRTXExists(needle RTPCodecParameters, haystack []RTPCod
 }
 
 // Filter out RTX codecs that do not have a primary codec.
+// The result is a new slice: the caller's slice (for example the MediaEngine's own list) is left untouched.
 func filterUnattachedRTX(codecs []RTPCodecParameters) []RTPCodecParameters {
+	codecs = append([]RTPCodecParameters{}, codecs...)
 	for i := len(codecs) - 1; i >= 0; i-- {
 		c := codecs[i]
 		if isRTX, primaryExists := primaryPayloadTypeForRTXExists(c, codecs); isRTX && !primaryExists {
